@@ -81,5 +81,5 @@ func bigLogior(s *slip.Scope, args slip.List, depth int) slip.Object {
 			slip.TypePanic(s, depth, "integer", tv, "integer")
 		}
 	}
-	return (*slip.Bignum)(&bi)
+	return reduceInteger(&bi)
 }
